@@ -213,6 +213,7 @@ func wrapped(v ssa.Value, isInner func(ssa.Value) bool) bool {
 
 func ruleJSN2(c *Ctx) {
 	p := c.P
+	jsn2TextOperandOfCompound(c)
 	po := p.Func("pkg", "parseOperand")
 	bex := p.Func("pkg", "buildExpressionEx")
 	jo := p.Func("pkg", "joinOperator")
@@ -1520,4 +1521,98 @@ func sameElem(a, b ssa.Value) bool {
 	ia, ok1 := ua.X.(*ssa.IndexAddr)
 	ib, ok2 := ub.X.(*ssa.IndexAddr)
 	return ok1 && ok2 && ia.X == ib.X && ia.Index == ib.Index
+}
+
+
+// jsn2TextOperandOfCompound (D37b): an and/or operand that is a plain string is a condition of its own and is grouped
+// like a nested object: what is appended to the operand list on the "is a string" edge is "(" + text + ")". Pasted raw,
+// `F.A || F.B` inside an `and` re-associates with its neighbours (A || (B && C)).
+func jsn2TextOperandOfCompound(c *Ctx) {
+	p := c.P
+	fn := p.Func("pkg", "buildCompoundOperator")
+	po := p.Func("pkg", "parseOperand")
+	if fn == nil || po == nil {
+		c.AnchorLost("pkg.buildCompoundOperator / pkg.parseOperand")
+		return
+	}
+	construct := "buildCompoundOperator / a string operand is bracketed"
+	// does the function take plain operands at all (D37)? if not, there is nothing to bracket
+	var poCall *ssa.Call
+	for _, ci := range callsIn(fn) {
+		if call, ok := ci.(*ssa.Call); ok && call.Call.StaticCallee() == po {
+			poCall = call
+		}
+	}
+	if poCall == nil {
+		c.OK(construct, p.Pos(fn.Pos()), "no plain operands are taken here")
+		return
+	}
+	operand := resultValues(poCall, 0)
+	// the values appended to the operand list that derive from parseOperand's result
+	ok, found := true, 0
+	for _, ci := range callsIn(fn) {
+		bi, isB := ci.Common().Value.(*ssa.Builtin)
+		if !isB || bi.Name() != "append" || len(ci.Common().Args) != 2 {
+			continue
+		}
+		for _, el := range varargElems(ci.Common().Args[1]) {
+			var ls []ssa.Value
+			var leaves func(v ssa.Value, seen map[ssa.Value]bool)
+			leaves = func(v ssa.Value, seen map[ssa.Value]bool) {
+				v = unspill(v)
+				if seen[v] {
+					return
+				}
+				seen[v] = true
+				if ph, isPhi := v.(*ssa.Phi); isPhi {
+					for _, e := range ph.Edges {
+						leaves(e, seen)
+					}
+					return
+				}
+				ls = append(ls, v)
+			}
+			leaves(el, map[ssa.Value]bool{})
+			fromOperand := func(v ssa.Value) bool {
+				for _, o := range operand {
+					if v == o {
+						return true
+					}
+				}
+				return false
+			}
+			relevant := false
+			for _, l := range ls {
+				if fromOperand(l) || wrapped(l, fromOperand) {
+					relevant = true
+				}
+			}
+			if !relevant {
+				continue
+			}
+			found++
+			// some leaf must be the bracketed form, and the raw form may only arrive from the "not a string" side
+			hasWrapped := false
+			for _, l := range ls {
+				if wrapped(l, fromOperand) {
+					hasWrapped = true
+				}
+			}
+			if !hasWrapped {
+				ok = false
+			}
+		}
+	}
+	// the bracketed form is chosen on the string edge: a type assertion of the operand to string decides
+	hasStringTest := false
+	for _, b := range fn.Blocks {
+		for _, in := range b.Instrs {
+			if ta, isTA := in.(*ssa.TypeAssert); isTA && ta.CommaOk {
+				if bt, isBasic := ta.AssertedType.Underlying().(*types.Basic); isBasic && bt.Kind() == types.String {
+					hasStringTest = true
+				}
+			}
+		}
+	}
+	c.Check(ok && found >= 1 && hasStringTest, construct, p.InstrPos(poCall), "\"(\" + operand + \")\" on the string edge", "a plain-string operand of and/or is pasted into the condition as it is: {\"and\":[\"F.A == 1 || F.B == 1\",\"F.C == 1\"]} becomes F.A == 1 || F.B == 1 && F.C == 1, which GRL reads as A || (B && C), while the same condition written with a nested or-object is grouped (A || B) && C")
 }
